@@ -818,13 +818,20 @@ Definition aquery_check (q : aquery) : option vars :=
 Definition search_blank (q : aquery) : bool :=
   match aq_search q with Some (SrchLit b) | Some (SrchVar _ b) => b | None => false end.
 
-(* a filter on a reference field (pets = null) is compiled to a test on the selected json value
-   (value->>'$.pets[0]' is null); in an aggregate selection that value contains the aggregate
-   functions and the engine refuses it in WHERE ("misuse of aggregate") *)
+(* get_where_filters: a filter that is not on an aggregate goes to WHERE; it is written as a test on
+   the selected json value ("value->>'$.name' op v") when its name is a reference field
+   (FieldType::Array / Entity) or is only known as the alias of a selected field
+   (FilterParam.is_selected), otherwise on the stored json.  In an aggregate selection that value
+   contains the aggregate functions and the engine refuses it in WHERE ("misuse of aggregate") *)
 Definition key_is_ref (q : aquery) (k : akey) : bool :=
   match key_info q k with Some i => ki_ref i | None => false end.
-Definition ref_filter_on_aggregate (q : aquery) : bool :=
-  is_aggregate q && existsb (fun f => key_is_ref q (fst (fst f))) (aq_filters q).
+Definition key_is_agg' (q : aquery) (k : akey) : bool :=
+  match key_info q k with Some i => ki_agg i | None => false end.
+Definition filter_reads_value (q : aquery) (k : akey) : bool :=
+  negb (key_is_agg' q k)
+  && (key_is_ref q k || match k with KSel _ => true | _ => false end).
+Definition value_filter_on_aggregate (q : aquery) : bool :=
+  is_aggregate q && existsb (fun f => filter_reads_value q (fst (fst f))) (aq_filters q).
 
 (* GraphDatabaseService::query for this family *)
 Definition aquery_outcome (q : aquery) : outcome :=
@@ -833,7 +840,7 @@ Definition aquery_outcome (q : aquery) : outcome :=
   | Some vs => match validate_params vs (aq_params q) with
                | None => OErr
                | Some _ => if search_blank q then OErr                (* FTS5: blank text *)
-                           else if ref_filter_on_aggregate q then OErr (* engine: misuse of aggregate *)
+                           else if value_filter_on_aggregate q then OErr (* engine: misuse of aggregate *)
                            else OOk
                end
   end.
